@@ -24,7 +24,10 @@ def RULE(tier):
     return ("cases = (signed stabilizer group in a generating set and input format, connectivity); generated "
             "exhaustively over all groups x all sign vectors for n<=3 (thorough: n<=4; all 75,735 groups at n=5), "
             "plus LC-class-stratified random members (random graph of the orbit x 24^n local Cliffords x "
-            "sign flips x GL(n,2) recombination) for every (configuration, class) pair; a case is non-trivial when "
+            "sign flips x GL(n,2) recombination; also uniform layers, Pauli frames, all-minus signs) for every (configuration, class) "
+            "pair, each member on all its configurations consecutively, plus request sequences around anchors (tableau neighbours 1-2 bits "
+            "apart, stabilizers sharing all but one generator, one-qubit Clifford variants) and a retention monitor on every returned "
+            "circuit; a case is non-trivial when "
             "its state is entangled (orbit label != 0); distinct = distinct (n, connectivity, format, canonical "
             "signed group)")
 
